@@ -48,8 +48,11 @@ def check_sf(ctx, sf_fn, rng, big_step=None):
     rows = lags * step + 1 + int(rng.integers(0, 30))
     cols = int(rng.integers(max(1, (lags + 1) * step), (lags + 1) * step + 40))   # the API bounds the lag count by the column count
     dt = [np.float64, np.float32, np.int64][int(rng.integers(0, 3))]
-    kind = int(rng.integers(0, 4))
-    if kind == 3:       # small structure on a huge common offset (differences are exact, sums of squares are not)
+    kind = int(rng.integers(0, 5))
+    if kind == 4:       # a strong tilt ACROSS the shift axis (constant along it) under small structure: it cancels exactly in phase - shifted phase
+        phase = float(2.0 ** int(rng.integers(14, 31))) * np.arange(cols)[None, :] + np.round(rng.standard_normal((rows, cols)) * 16) / 16.0
+        dt = np.float64
+    elif kind == 3:       # small structure on a huge common offset (differences are exact, sums of squares are not)
         phase = float(2.0 ** int(rng.integers(16, 27))) + rng.standard_normal((rows, cols)) * 2.0 ** -4
         dt = np.float64
     elif kind == 0:
@@ -98,7 +101,7 @@ def check_sf(ctx, sf_fn, rng, big_step=None):
     p64 = phase.astype(np.float64)
     g1 = sf_fn(p64, lags, step)
     ctx.check(np.array_equal(sf_fn(p64 * 4.0, lags, step), g1 * 16.0), "structure_function:amplitude_scaling", "sf(4 phase) != 16 sf(phase)", wit)
-    if kind != 3:       # (a non-dyadic factor on a huge offset rounds the differences themselves)
+    if kind not in (3, 4):       # (a non-dyadic factor on a huge offset / tilt rounds the differences themselves)
         c = float(rng.uniform(0.3, 3))
         ctx.close("sf_amplitude", sf_fn(p64 * c, lags, step), g1 * c * c, 1e-12 * float(np.abs(g1).max()) * c * c, "structure_function:amplitude_scaling", wit)
 
